@@ -9,17 +9,24 @@ Require Import H4.gen.Gen_Crash H4.CrashSpec H4.CrashModel H4.CrashBytes H4.Cras
 Import ListNotations.
 Local Open Scope Z_scope.
 
-(** 1. FULL.  In a session with descriptor caching that only creates new elements (any history of
-    Hstartwrite/Hwrite/Hendaccess and appendable writes on new tag/refs, any number of new DD blocks), every
-    write issued before the flush has an offset at or above the old end of file -- the maximum over all old DD
-    blocks and all old elements, as HTPstart computes it -- and the end of file never decreases. *)
+(** 1. FULL.  In a session with descriptor caching that creates new elements (any history of
+    Hstartwrite/Hwrite/Hendaccess and appendable writes on new tag/refs, Hputelement under a reference number chosen by
+    Hnewref, any number of new DD blocks) and possibly DELETES old ones first (Hdeldd: delete-then-append, as SDend does
+    with its metadata; [op_ok1]), every write issued before the flush has an offset at or above the old end of file
+    -- the maximum over all old DD blocks and all old elements, as HTPstart computes it -- and the end of file never
+    decreases (space of a deleted element is not handed out again: see allocator_state_writers). *)
 Theorem append_only_above_old_end :
   forall img bl fr ops fr1 pre,
-    parse_file img = Some bl -> load img true = Some fr -> forallb op_ok ops = true ->
+    parse_file img = Some bl -> load img true = Some fr -> forallb op_ok1 ops = true ->
     run_ops fr ops = (fr1, pre) ->
     log_above (old_end bl) pre = true /\ old_end bl <= f_end fr1.
 Proof. exact append_only_above_old_end_lemma. Qed.
 Print Assumptions append_only_above_old_end.
+
+Example append_only_above_old_end_with_delete_hypotheses_met :
+  forallb op_ok1 [OpDel 30 1; OpPutNew 800 2 [7; 7]; OpPut 801 5 1 [9]] = true /\
+  length (snd (run_ops ex_fr [OpDel 30 1; OpPutNew 800 2 [7; 7]; OpPut 801 5 1 [9]])) = 2%nat.
+Proof. vm_compute. split; reflexivity. Qed.
 
 Example append_only_above_old_end_hypotheses_met :
   parse_file ex_img = Some ex_bl /\ load ex_img true = Some ex_fr /\ forallb op_ok ex_ops = true /\
@@ -122,3 +129,51 @@ Proof.
         (conj skel_HIsync (conj skel_HIextend_file (conj skel_HTPcreate exprs_sources))))))).
 Qed.
 Print Assumptions model_follows_sources.
+
+(** 5. FULL (tie, round 2).  The allocator state has exactly the writers the model knows: every assignment to
+    f_end_off and to maxref in hfile.c / hfiledd.c (regenerated census), HPfreediskblock releases nothing, Hdeldd /
+    HTPdelete / Hnewref have the modelled skeletons, and every forward walk of HTIfind_dd covers ALL DD blocks
+    (outer loop over the block list, index reset before the next block). *)
+Theorem allocator_state_writers :
+  f_end_off_writers =
+    ["Hwrite: file_rec->f_end_off=file_rec->f_cur_off";
+     "HPgetdiskblock: file_rec->f_end_off+=block_size";
+     "HTPstart: file_rec->f_end_off=end_off";
+     "HTPinit: file_rec->f_end_off=block->myoffset+(NDDS_SZ+OFFSET_SZ)+(block->ndds*DD_SZ)";
+     "HTInew_dd_block: file_rec->f_end_off=block->myoffset+(NDDS_SZ+OFFSET_SZ)+(block->ndds*DD_SZ)";
+     "HTIupdate_dd: file_rec->f_end_off=dd_ptr->offset+dd_ptr->length"] /\
+  maxref_writers =
+    ["Hopen: file_rec->maxref=0"; "Hstartaccess: file_rec->maxref=new_ref"; "HTPstart: file_rec->maxref=0";
+     "HTPstart: file_rec->maxref=curr_dd_ptr->ref"; "HTPinit: file_rec->maxref=0"; "HTPcreate: file_rec->maxref=ref";
+     "Hnewref: ++(file_rec->maxref)"] /\
+  HPfreediskblock_skel = [] /\
+  Hdeldd_skel = ["HTPselect(file_rec,tag,ref)"; "HTPdelete(ddid)"] /\
+  HTPdelete_skel =
+    ["HPfreediskblock(file_rec,dd_ptr->offset,dd_ptr->length)"; "HTIunregister_tag_ref(file_rec,dd_ptr)";
+     "HTIupdate_dd(file_rec,dd_ptr)"] /\
+  Hnewref_skel =
+    ["if(file_rec->maxref<((uint16)65535))"; "ret_value=++(file_rec->maxref);"; "else";
+     "for(i_ref=1;i_ref<=(uint32)((uint16)65535);i_ref++)"; "HTIfind_dd(file_rec,(uint16)0,ref,&dd_ptr,1)";
+     "ret_value=ref;"; "break;"] /\
+  (List.length HTIfind_dd_skel = 47)%nat /\
+  (List.length (filter (String.eqb "idx=0;") HTIfind_dd_skel) = 8)%nat /\
+  (List.length (filter (String.eqb "for(;block;block=block->next)") HTIfind_dd_skel) = 6)%nat.
+Proof.
+  split; [exact census_f_end_off|]. split; [exact census_maxref|]. split; [exact skel_HPfreediskblock|].
+  split; [exact skel_Hdeldd|]. split; [exact skel_HTPdelete|]. split; [exact skel_Hnewref|].
+  rewrite skel_HTIfind_dd. repeat split; reflexivity.
+Qed.
+Print Assumptions allocator_state_writers.
+
+(** 6. FULL.  Hnewref (model [newref]) never returns a reference number that a live descriptor of any DD block uses,
+    provided maxref dominates the references in use (HTPstart, HTPcreate and Hnewref keep it so). *)
+Theorem newref_fresh :
+  forall fr, (forall d, In d (all_mem_dds fr) -> d_ref d <= f_maxref fr) ->
+    fst (newref fr) = 0 \/ ref_used fr (fst (newref fr)) = false.
+Proof. exact newref_fresh_lemma. Qed.
+Print Assumptions newref_fresh.
+
+Example newref_fresh_hypotheses_met :
+  (forall d, In d (all_mem_dds ex_fr1) -> d_ref d <= f_maxref ex_fr1) /\ fst (newref ex_fr1) = 3.
+Proof. split; [|vm_compute; reflexivity]. intros d Hd. vm_compute in Hd.
+  repeat (destruct Hd as [<-|Hd]; [vm_compute; intro; discriminate|]). destruct Hd. Qed.
